@@ -18,12 +18,22 @@ def _arg_variants(r, shape, q):
     if R > 1 and C > 1:
         r0, c0 = r.randrange(R - 1), r.randrange(C - 1)
         out.append(({"k": "m", "x": [[[rr, cc] for cc in range(c0, C)] for rr in range(r0, R)]}, r.choice(["ndarray", "fortran"])))
+    if R >= 1 and C >= 4:
+        # a 2-D argument whose corners are those of a block but whose interior is in another order
+        row = [[0, cc] for cc in range(C)]
+        row[1], row[2] = row[2], row[1]
+        out.append(({"k": "m", "x": [row]}, "ndarray"))
+    if R >= 3 and C >= 3:
+        blk = [[[rr, cc] for cc in range(3)] for rr in range(3)]
+        blk[1][1], blk[0][1] = blk[0][1], blk[1][1]
+        blk[1][0], blk[1][2] = blk[1][2], blk[1][0]
+        out.append(({"k": "m", "x": blk}, "ndarray"))
     out.append(({"k": "l", "x": (ws + ws[::-1] + ws[:1])[: 2 * len(ws) + 1]}, "list"))   # more entries than the plate has wells (repeats)
     out.append(({"k": "l", "x": ws[: max(1, len(ws) // 2)]}, "object"))
     out.append(({"k": "l", "x": list(reversed(ws))}, "view"))
     out.append((full2d, "view"))
     out.append(({"k": "s", "x": r.choice(ws)}, "zerod"))
-    return out if not q else out[:2] + out[3:5] + out[-5:]
+    return out if not q else out[:2] + out[3:5] + out[-7:]
 
 
 def cases(tier, r):
@@ -41,11 +51,13 @@ def cases(tier, r):
             if C > 26:
                 break  # the rotated plate would need more than 26 row letters
             ps.append({"x": "rot", "shape": list(sh), "wells": arg, "present": present})
+            if len(ps) % 3 == 0:
+                ps.append({"x": "rot", "shape": list(sh), "wells": arg, "present": present, "scribble": True})
         seeds = [0, 1, r.randint(2, 10**6), 2**32 - 1] if q else [0, 1, 2, 3, r.randint(4, 10**6), r.randint(4, 10**6), 2**32 - 1, 2**31]
         for seed in seeds:
             for mode in ("full", "row", "column", "default"):
                 arg, present = r.choice(_arg_variants(r, sh, False))
-                ps.append({"x": "rand", "shape": list(sh), "seed": seed, "mode": mode, "wells": arg, "present": present})
+                ps.append({"x": "rand", "shape": list(sh), "seed": seed, "mode": mode, "wells": arg, "present": present, "scribble": len(ps) % 4 == 0})
         # shifting: every anchor of a few destination shapes (fitting and not fitting)
         dests = [(R, C), (R + 1, C + 2), (R + 3, C), (max(1, R - 1), C + 1), (16, 24)]
         # destinations that are smaller than the source by two or more rows / columns (never fit)
